@@ -1,6 +1,6 @@
 //! Module implementing parsing for BIP-0032 HD paths used for key derivation.
 
-use anyhow::{Context as _, Result};
+use anyhow::{ensure, Context as _, Result};
 use std::{
     fmt::{self, Display, Formatter},
     str::FromStr,
@@ -14,8 +14,11 @@ pub struct Path {
 
 impl Path {
     /// Creates the default Ethereum HD path for the specified account index.
-    pub fn for_index(index: usize) -> Self {
-        format!("m/44'/60'/0'/0/{index}").parse().unwrap()
+    ///
+    /// Returns an error if the index is not a valid BIP-0032 child index, that
+    /// is if it is not below 2^31.
+    pub fn for_index(index: usize) -> Result<Self> {
+        format!("m/44'/60'/0'/0/{index}").parse()
     }
 
     /// Returns an iterator over the path components.
@@ -77,9 +80,16 @@ impl FromStr for Component {
             None => (s, false),
         };
 
-        let value = value
+        let value: u32 = value
             .parse()
             .with_context(|| format!("invalid BIP-0032 path component '{s}'"))?;
+        // NOTE: BIP-0032 child indices are 31 bits, the top bit is reserved for
+        // marking hardened derivation. Accepting larger values would alias
+        // hardened indices (`2147483648'` would derive the same key as `0'`).
+        ensure!(
+            value < 0x8000_0000,
+            "BIP-0032 path component '{s}' out of range, must be less than 2^31",
+        );
 
         Ok(if hardened {
             Component::Hardened(value)
